@@ -28,12 +28,72 @@ func (p *Prog) ledgerWrite(in ssa.Instruction) (ssa.CallInstruction, bool) {
 	return p.isIfaceMethodCall(in, "Ledger", "SetValue")
 }
 
+// regWriteWrapper: g is a method of the storage that takes the register key as a parameter and issues
+// BaseStorage.Store/Remove with that key on every success path (a helper extracted from a commit routine).
+// Returns the index of the key among the call arguments (receiver included) and the kind of write.
+func (p *Prog) regWriteWrapper(g *ssa.Function) (int, string, bool) {
+	if g == nil || recvName(g) != storageT || len(g.Blocks) == 0 || !lastResultIsError(g) {
+		return 0, "", false
+	}
+	for i, prm := range g.Params {
+		if typeName(prm.Type()) != "SlabID" {
+			continue
+		}
+		kind := ""
+		isW := func(in ssa.Instruction) bool {
+			c, k, ok := p.baseWrite(in)
+			if ok && len(c.Common().Args) > 0 && sameValue(c.Common().Args[0], prm) {
+				kind = k
+				return true
+			}
+			return false
+		}
+		any := false
+		eachInstr(g, func(in ssa.Instruction) {
+			if isW(in) {
+				any = true
+			}
+		})
+		if any && successReturnAvoiding(g, nil, isW) == nil {
+			return i, kind, true
+		}
+	}
+	return 0, "", false
+}
+
+// registerWrite: a BaseStorage.Store/Remove invoke, or a call of a register-write wrapper. Returns the call,
+// the key operand and the kind of write.
+func (p *Prog) registerWrite(in ssa.Instruction) (ssa.CallInstruction, ssa.Value, string, bool) {
+	if c, kind, ok := p.baseWrite(in); ok && len(c.Common().Args) > 0 {
+		return c, c.Common().Args[0], kind, true
+	}
+	if c, ok := in.(ssa.CallInstruction); ok {
+		if g := staticCallee(c); g != nil && g.Pkg == p.RootSSA {
+			if i, kind, ok := p.regWriteWrapper(g); ok && i < len(c.Common().Args) {
+				return c, c.Common().Args[i], kind, true
+			}
+		}
+	}
+	return nil, nil, "", false
+}
+
 // baseWriteFuncs: top-level functions containing (deeply) a BaseStorage write.
 func (p *Prog) baseWriteFuncs() map[*ssa.Function][]ssa.CallInstruction {
 	out := map[*ssa.Function][]ssa.CallInstruction{}
 	for _, f := range p.TopFuncs() {
 		eachInstrDeep(f, func(_ *ssa.Function, in ssa.Instruction) {
 			if c, _, ok := p.baseWrite(in); ok {
+				out[f] = append(out[f], c)
+			}
+		})
+	}
+	// callers of register-write wrappers write registers too
+	for _, f := range p.TopFuncs() {
+		eachInstrDeep(f, func(_ *ssa.Function, in ssa.Instruction) {
+			if _, isBase, _ := p.baseWrite(in); isBase != "" {
+				return
+			}
+			if c, _, _, ok := p.registerWrite(in); ok {
 				out[f] = append(out[f], c)
 			}
 		})
@@ -369,7 +429,7 @@ func (p *Prog) precedingBaseWrites(fn *ssa.Function, from ssa.Instruction, id ss
 	entry := fn.Blocks[0].Instrs[0]
 	seenHit := map[ssa.Instruction]bool{}
 	reachBackFrom(fn, from, func(in ssa.Instruction) bool {
-		if c, _, ok := p.baseWrite(in); ok && len(c.Common().Args) > 0 && sameValue(c.Common().Args[0], id) {
+		if c, key, _, ok := p.registerWrite(in); ok && sameValue(key, id) {
 			if !seenHit[in] {
 				seenHit[in] = true
 				hits = append(hits, c)
@@ -468,7 +528,7 @@ func ruleS3(p *Prog, r *Report) {
 						r.Bad(R, cons, p.InstrPos(in), "read cache updated although the register write may have failed")
 						return
 					}
-					_, kind, _ := p.baseWrite(h.(ssa.Instruction))
+					_, _, kind, _ := p.registerWrite(h.(ssa.Instruction))
 					if kind == "Remove" {
 						if !isNilConst(stripTrivial(fw.Val)) {
 							r.Bad(R, cons, p.InstrPos(in), "after a register deletion the cache entry must be nil (known-deleted)")
@@ -570,11 +630,14 @@ func ruleS4(p *Prog, r *Report) {
 	for _, top := range sortedFuncs(p, keysOf(bw)) {
 		heads := map[*ssa.BasicBlock]bool{}
 		eachInstrDeep(top, func(fn *ssa.Function, in ssa.Instruction) {
-			if _, _, ok := p.baseWrite(in); !ok {
+			if _, _, _, ok := p.registerWrite(in); !ok {
 				return
 			}
 			h := loopHeadOf(in.Block())
 			if h == nil {
+				if _, _, isWrapper := p.regWriteWrapper(fn); isWrapper {
+					return // a helper that writes the one register it is given: its call sites are the apply sites
+				}
 				r.Unk(R, "apply-site:"+p.Name(fn), p.InstrPos(in), "register write outside any loop: unknown commit shape")
 				return
 			}
@@ -600,7 +663,7 @@ func ruleS4(p *Prog, r *Report) {
 				}
 				seen[b] = true
 				for _, x := range b.Instrs {
-					if _, _, ok := p.baseWrite(x); ok {
+					if _, _, _, ok := p.registerWrite(x); ok {
 						return
 					}
 				}
@@ -710,6 +773,18 @@ func ruleS5(p *Prog, r *Report) {
 			isWorker := fn.Parent() != nil && isGoTarget(fn)
 			// (a) register writes
 			if c, kind, ok := p.baseWrite(in); ok {
+				n++
+				v := callValue(c)
+				cons := fmt.Sprintf("basewrite-%s:%s", kind, p.Name(fn))
+				if v == nil {
+					r.Bad(R, cons, p.InstrPos(in), "register write issued with go/defer: its error cannot surface")
+					return
+				}
+				ok2, why := p.errorSurfaces(fn, v)
+				r.Decide(ok2, R, cons, p.InstrPos(in), why, "error of the register write is not surfaced: "+why)
+				return
+			}
+			if c, _, kind, ok := p.registerWrite(in); ok {
 				n++
 				v := callValue(c)
 				cons := fmt.Sprintf("basewrite-%s:%s", kind, p.Name(fn))
